@@ -29,6 +29,7 @@ type ContractCase struct {
 	Yaml   bool   `json:"yaml"`
 	Color  bool   `json:"color"`
 	Blanks bool   `json:"blanks,omitempty"` // -setkeys written with blanks around the keys
+	JdYaml bool   `json:"jd_yaml,omitempty"` // with -yaml the input files are written by jd's own Yaml() (block scalars)
 	Mode   string `json:"mode"`             // diff | translate | gitdiff
 	Tr     string `json:"tr,omitempty"`
 	TrIn   string `json:"tr_in,omitempty"`
@@ -37,6 +38,16 @@ type ContractCase struct {
 type libResult struct {
 	out    string
 	status int // 0, 1 or 2
+}
+
+func (c ContractCase) text(v val.V) string {
+	if c.Yaml && c.JdYaml && !val.IsVoid(v) {
+		var out string
+		if _, p := jdx.Guard(func() { out = jdx.Node(v).Yaml() }); !p {
+			return out
+		}
+	}
+	return docText(v, c.Yaml)
 }
 
 func (c ContractCase) binary() (string, []string) {
@@ -316,7 +327,7 @@ func checkC14(c ContractCase, r *rec.Rec) error {
 	}
 	bin, _ := c.binary()
 	flags := c.flags()
-	aText, bText := docText(av, c.Yaml), docText(bv, c.Yaml)
+	aText, bText := c.text(av), c.text(bv)
 	dir, cleanup := caseDir()
 	defer cleanup()
 	writeFile(dir, "a", aText)
@@ -609,7 +620,7 @@ func checkC14GitDiff(c ContractCase, r *rec.Rec) error {
 	}
 	bin, _ := c.binary()
 	flags := c.flags()
-	aText, bText := docText(av, c.Yaml), docText(bv, c.Yaml)
+	aText, bText := c.text(av), c.text(bv)
 	dir, cleanup := caseDir()
 	defer cleanup()
 	writeFile(dir, "a", aText)
@@ -729,6 +740,20 @@ func genC14(t *rapid.T) ContractCase {
 		}
 	}
 	c.Yaml = gen.Chance(t, "yaml", 25) || (hostile && gen.Chance(t, "yamlForHostile", 50))
+	if c.Yaml {
+		c.JdYaml = gen.Chance(t, "jdYaml", 50)
+		if gen.Chance(t, "lastScalarEndsInNewline", 35) {
+			// the last value of the file is a string ending in a line break
+			if bo, ok := val.MustParse(c.B).(map[string]val.V); ok {
+				bo["zz"] = gen.Pick(t, "tailText", []string{"line\n", "two\nlines\n", "keep\n\n", "x\n ", "nbsp\u00a0"})
+				c.B = val.JSON(bo)
+				if ao, ok := val.MustParse(c.A).(map[string]val.V); ok && gen.Chance(t, "alsoInA", 40) {
+					ao["zz"] = "other\n"
+					c.A = val.JSON(ao)
+				}
+			}
+		}
+	}
 	c.Color = c.Mode == "diff" && c.Format != "patch" && !jdx.IsMerge(c.Opts) && gen.Chance(t, "color", 12) && !hasLongString(val.MustParse(c.A), 3000)
 	return c
 }
